@@ -28,8 +28,8 @@ func init() {
 			return 1280
 		},
 		Batch: func(t string) int { return 32 },
-		Floors: []string{"roundtrips", "mode_encrypted_footer", "mode_plaintext_footer", "keys_footer_only", "keys_per_column", "missing_column_key_checks", "leak_scans", "markers_searched", "tamper_byte_flips", "tamper_truncations", "tamper_module_swaps", "tamper_swaps_256_apart", "wide_ordinal_files", "encrypted_seeks",
-			"tamper_cross_file_transplants", "tamper_wrong_key", "writer_reuse_after_reset", "write_rowgroup_from_encrypted_source", "envelope_walks", "entry_write_rows", "entry_write_rowgroup_buffer", "entry_write_rowgroup_plain_file", "entry_begin_rowgroup"},
+		Floors: []string{"roundtrips", "mode_encrypted_footer", "mode_plaintext_footer", "keys_footer_only", "keys_per_column", "missing_column_key_checks", "missing_key_column_access_checks", "leak_scans", "markers_searched", "tamper_byte_flips", "tamper_truncations", "tamper_module_swaps", "tamper_swaps_256_apart", "wide_ordinal_files", "encrypted_seeks",
+			"tamper_cross_file_transplants", "tamper_wrong_key", "tamper_signature_stripped", "writer_reuse_after_reset", "write_rowgroup_from_encrypted_source", "envelope_walks", "entry_write_rows", "entry_write_rowgroup_buffer", "entry_write_rowgroup_plain_file", "entry_begin_rowgroup"},
 		Rule: "case = ({encrypted footer, signed plaintext footer} x {footer key only, per-column keys} x v1/v2 x codecs x page index / bloom filters x 1..n row groups x {fresh writer, writer reused through Reset after a file with another number of row groups} x write entry point {typed Write, WriteRows, WriteRowGroup(buffer), WriteRowGroup(plaintext file), BeginRowGroup/Commit}; " +
 			"string values are unique 16-byte high-entropy markers). (a) round trip with the right keys equals the rows written; a reader lacking a column key gets an error for that column, never zeros; (b) no marker of an encrypted column (values or statistics) occurs in the raw bytes; " +
 			"(c) fault enumeration over the module envelopes found by an independent length-prefix walk: byte flips in nonce/ciphertext/tag/length of PRNG modules, truncation, swaps of equal-length modules, transplant of the same module position from another file written with an independent file identifier " +
@@ -383,6 +383,33 @@ func runC18(c *Ctx) {
 			c.Fail("c18.missing_key_data", kd, "a reader without the key of column \"secret\" read its plaintext values")
 			return
 		}
+		// the same reader going to the column directly, and copying the row groups into a plaintext file: an error, never
+		// an empty column or a "successful" copy
+		if pf, err := parquet.OpenFile(bytes.NewReader(data), int64(len(data)), parquet.WithDecryption(partial)); err == nil {
+			for gi, rg := range pf.RowGroups() {
+				pages := rg.ColumnChunks()[1].Pages()
+				p, err := pages.ReadPage()
+				if err == nil {
+					parquet.Release(p)
+				}
+				pages.Close()
+				if err == nil || errors.Is(err, io.EOF) {
+					c.Fail("c18.missing_key_silent", kd, "without the key of column \"secret\", ReadPage on its chunk of row group %d (%d rows) returned err=%v", gi, rg.NumRows(), err)
+					return
+				}
+				var out bytes.Buffer
+				w := parquet.NewGenericWriter[c18Row](&out)
+				nr, err := w.WriteRowGroup(rg)
+				if err == nil {
+					err = w.Close()
+				}
+				if err == nil {
+					c.Fail("c18.missing_key_silent", kd, "without the key of column \"secret\", WriteRowGroup of row group %d into a plaintext writer reported %d rows and no error", gi, nr)
+					return
+				}
+			}
+			c.Obs("missing_key_column_access_checks", 1)
+		}
 	}
 	// (b) leak scan
 	c.Obs("leak_scans", 1)
@@ -517,6 +544,32 @@ func runC18(c *Ctx) {
 			c.Obs("tamper_truncations", 1)
 			if !tampered(fmt.Sprintf("truncation to %d bytes", l), data[:l]) {
 				return
+			}
+		}
+		// a signed plaintext footer whose signature is cut off (footer length adjusted): nothing vouches for the footer any more
+		if !encFooter && len(data) > 8+28 {
+			if flen := int(binary.LittleEndian.Uint32(data[len(data)-8:])); flen > 28 && flen+8 <= len(data) {
+				bad := append([]byte{}, data[:len(data)-8-28]...)
+				var l [4]byte
+				binary.LittleEndian.PutUint32(l[:], uint32(flen-28))
+				bad = append(append(bad, l[:]...), "PAR1"...)
+				c.Obs("tamper_signature_stripped", 1)
+				if !tampered("footer signature removed, footer length adjusted", bad) {
+					return
+				}
+				// ... and the unsigned footer edited: one letter of created_by
+				if orig, err := parquet.OpenFile(bytes.NewReader(data), int64(len(data)), parquet.WithDecryption(keys)); err == nil {
+					cb := orig.Metadata().CreatedBy
+					if i := bytes.LastIndex(bad, []byte(cb)); cb != "" && i > end {
+						bad[i] ^= 0x20
+						// (the encrypted page index and filters cannot be read any more: a reader that does not need them)
+						if forged, err := parquet.OpenFile(bytes.NewReader(bad), int64(len(bad)), parquet.WithDecryption(keys), parquet.SkipPageIndex(true), parquet.SkipBloomFilters(true)); err == nil && forged.Metadata().CreatedBy != cb {
+							c.Fail("c18.tamper_undetected", map[string]any{"mode": mode, "tamper": "forged unsigned footer"}, "the signature of the plaintext footer was removed and created_by edited (%q -> %q): OpenFile with the right keys accepted the file", cb, forged.Metadata().CreatedBy)
+							return
+						}
+						c.Obs("tamper_forged_footer", 1)
+					}
+				}
 			}
 		}
 		// wrong key of the right length
